@@ -1673,4 +1673,26 @@ def switch_bbox_epsg_axis_order""", 'C01.a'),
                     refresh_all = self.refresh_all = True
 """, 'C12.l|C13.m', 'revert of fix D36 (seed side)'),
 
+    M('M-C10n-revert-D47', 'mapproxy/image/mask.py', """    for p in sorted(parts, key=extent_area, reverse=True):
+        draw_polygon(p)""", """    for p in parts:
+        draw_polygon(p)""", 'C10.n', 'revert of fix D47'),
+    M('M-C10n-smallest-first', 'mapproxy/image/mask.py', """    for p in sorted(parts, key=extent_area, reverse=True):""", """    for p in sorted(parts, key=extent_area):""", 'C10.n', 'sorted the wrong way round'),
+    M('M-C13p-revert-D48', 'mapproxy/cache/mbtiles.py', """        elif tile.source and tile.coord is not None:
+            # the image was loaded before (load_tile does nothing then): read the
+            # time the tile was written again, it might have been refreshed since
+            cur = self.db.cursor()
+            cur.execute(\'\'\'SELECT last_modified FROM tiles
+                WHERE tile_column = ? AND
+                      tile_row = ? AND
+                      zoom_level = ?\'\'\', tile.coord)
+            row = cur.fetchone()
+            if row:
+                tile.timestamp = sqlite_datetime_to_timestamp(row[0])
+        else:""", """        else:""", 'C13.p', 'revert of fix D48 (single database)'),
+    M('M-C13p-revert-D48-level', 'mapproxy/cache/mbtiles.py', """        if tile.coord is None:
+            return
+        self._get_level(tile.coord[2]).load_tile_metadata(tile, dimensions=dimensions)""", """        self.load_tile(tile, dimensions=dimensions)""", 'C13.p', 'revert of fix D48 (per-level cache)'),
+    {'id': 'E-C17o-D49-applied', 'patch': 'selftest/patches/C17o-D49-applied.diff', 'path': 'mapproxy/client/wms.py', 'find': '', 'replace': '',
+     'expect': 'silent', 'props': ['C17'], 'origin': 'the repair of the known finding K2 (not applicable: five existing tests pin the old URL): with it the rule is satisfied'},
+
 ]
